@@ -159,6 +159,13 @@ func CompareWeighted(real *graph.WeightedAuthorizationModelGraph, g *Graph, stru
 			if re.GetFrom().GetUniqueLabel() != realID {
 				add("structure", "node %s edge #%d: from is %s", n.ID, i, re.GetFrom().GetUniqueLabel())
 			}
+			// one node per label: the endpoints of an edge are the very node objects the graph holds under their labels
+			if re.GetFrom() != rnodes[re.GetFrom().GetUniqueLabel()] {
+				add("structure", "node %s edge #%d: its from-node %s is a second object, not the node GetNodes() holds under that label", n.ID, i, re.GetFrom().GetUniqueLabel())
+			}
+			if re.GetTo() != rnodes[re.GetTo().GetUniqueLabel()] {
+				add("structure", "node %s edge #%d: its to-node %s is a second object, not the node GetNodes() holds under that label (two nodes for one label)", n.ID, i, re.GetTo().GetUniqueLabel())
+			}
 			if etName[re.GetEdgeType()] != fe.Type {
 				add("structure", "node %s edge #%d -> %s: edge type %s, want %s", n.ID, i, fe.To.ID, etName[re.GetEdgeType()], fe.Type)
 			}
